@@ -237,6 +237,28 @@ func FamilyShape(thorough bool, seed int64) []*Conv {
 	} {
 		out = append(out, shapeConv("shape", shape{Src: rc.src, Tgt: rc.tgt, Name: rc.name, Decls: []string{rc.decl}}, nextFormat(), nil, nil))
 	}
+	// byte / uint8 and rune / int32 are the same types under two spellings
+	for _, al := range []struct{ name, src, tgt, decl string }{
+		{"byte_uint8", "byte", "uint8", ""}, {"uint8_byte", "uint8", "byte", ""}, {"rune_int32", "rune", "int32", ""}, {"int32_rune", "int32", "rune", ""},
+		{"named_rune_int32", "PFXCode", "int32", "type PFXCode rune"}, {"byte_named_uint8", "byte", "PFXOctet", "type PFXOctet uint8"},
+	} {
+		var d []string
+		if al.decl != "" {
+			d = []string{al.decl}
+		}
+		leaf := shape{Src: al.src, Tgt: al.tgt, Name: "alias_" + al.name, Decls: d}
+		for _, sh := range []shape{leaf, ctorByName("slice").F(g, leaf), ctorByName("ptr").F(g, leaf), ctorByName("struct").F(g, leaf), wrap(leaf, "keyof", "map["+leaf.Src+"]string", "map["+leaf.Tgt+"]string")} {
+			out = append(out, shapeConv("shape", sh, nextFormat(), nil, nil))
+		}
+	}
+	// generic (instantiated) recursive structs, by value and behind pointers
+	for _, gr := range []struct{ name, src, tgt string }{
+		{"generic_tree_ptr", "*PFXTree[int]", "*PFXTreeT[int]"}, {"generic_tree_value", "PFXTree[string]", "PFXTreeT[string]"}, {"generic_tree_addr", "PFXTree[int]", "*PFXTreeT[int]"},
+	} {
+		cv := shapeConv("shape", shape{Src: gr.src, Tgt: gr.tgt, Name: gr.name, Decls: []string{"type PFXTree[T any] struct {\n\tV T\n\tChildren []PFXTree[T]\n\tByKey map[string]PFXTree[T]\n}\ntype PFXTreeT[T any] struct {\n\tV T\n\tChildren []PFXTreeT[T]\n\tByKey map[string]PFXTreeT[T]\n}"}}, nextFormat(), nil, nil)
+		cv.Bounds = &Bounds{MaxSlice: 1, MaxMap: 1, RecDepth: 1}
+		out = append(out, cv)
+	}
 	// more nested loops in one method than there are single-letter index names
 	for _, ds := range []struct {
 		name, src string
